@@ -4,6 +4,7 @@ import (
 	"bufio"
 	"fmt"
 	"io"
+	"os"
 	"os/exec"
 	"strings"
 	"time"
@@ -25,10 +26,16 @@ type Solver struct {
 	MaxQ    time.Duration
 	log     io.Writer
 	timeout int // ms per query
+	global  bool
+	fastMs  int
+	Fallbacks int
 }
 
 func NewSolver(bin string, timeoutMs int, log io.Writer) *Solver {
-	s := &Solver{bin: bin, log: log, timeout: timeoutMs}
+	s := &Solver{bin: bin, log: log, timeout: timeoutMs, fastMs: 150}
+	if v := os.Getenv("GOSYM_FASTMS"); v != "" {
+		fmt.Sscanf(v, "%d", &s.fastMs)
+	}
 	s.start()
 	return s
 }
@@ -56,7 +63,8 @@ func (s *Solver) start() {
 	if strings.Contains(s.bin, "cvc5") {
 		s.send("(set-logic ALL)\n")
 	} else {
-		s.send("(set-option :produce-models true)\n")
+		s.send("(set-option :produce-models true)\n(set-option :global-decls true)\n")
+		s.global = true
 	}
 }
 
@@ -91,11 +99,17 @@ func (s *Solver) Push() {
 func (s *Solver) Pop() {
 	s.send("(pop 1)\n")
 	top := len(s.levels) - 1
-	for _, id := range s.levels[top] {
-		delete(s.p.named, id)
-	}
-	for _, n := range s.dlevels[top] {
-		delete(s.p.decl, n)
+	if !s.global {
+		for _, id := range s.levels[top] {
+			delete(s.p.named, id)
+		}
+		for _, n := range s.dlevels[top] {
+			delete(s.p.decl, n)
+		}
+	} else if top > 0 {
+		// definitions are global: keep them, but account them to the base level so that Reset sees them
+		s.levels[0] = append(s.levels[0], s.levels[top]...)
+		s.dlevels[0] = append(s.dlevels[0], s.dlevels[top]...)
 	}
 	s.levels = s.levels[:top]
 	s.dlevels = s.dlevels[:top]
@@ -122,7 +136,7 @@ func (s *Solver) Reset() {
 		if strings.Contains(s.bin, "cvc5") {
 			s.send("(set-logic ALL)\n")
 		} else {
-			s.send("(set-option :produce-models true)\n")
+			s.send("(set-option :produce-models true)\n(set-option :global-decls true)\n")
 		}
 	}
 }
@@ -143,12 +157,39 @@ func (s *Solver) readLine() string {
 	return strings.TrimSpace(l)
 }
 
+var solverMode = os.Getenv("GOSYM_MODE") // "", inc, tactic, hybrid
+
 // Check returns "sat","unsat","unknown".
 func (s *Solver) Check() string {
 	t0 := time.Now()
-	s.send("(check-sat)\n")
-	r := s.readLine()
+	var r string
+	mode := solverMode
+	if mode == "" {
+		mode = "hybrid"
+	}
+	if !s.global {
+		mode = "inc"
+	}
+	switch mode {
+	case "inc":
+		s.send("(check-sat)\n")
+		r = s.readLine()
+	case "tactic":
+		s.send("(check-sat-using qfaufbv)\n")
+		r = s.readLine()
+	default:
+		s.send(fmt.Sprintf("(set-option :timeout %d)\n(check-sat)\n", s.fastMs))
+		r = s.readLine()
+		if r == "unknown" {
+			s.Fallbacks++
+			s.send(fmt.Sprintf("(set-option :timeout %d)\n(check-sat-using qfaufbv)\n", s.timeout))
+			r = s.readLine()
+		}
+	}
 	d := time.Since(t0)
+	if s.log != nil {
+		fmt.Fprintf(s.log, "; took %.3fs -> %s\n", d.Seconds(), r)
+	}
 	s.Queries++
 	s.Time += d
 	if d > s.MaxQ {
